@@ -204,7 +204,7 @@ func init() {
 			if tier == "thorough" {
 				return 1200000
 			}
-			return c12EnumN + 12000
+			return c12EnumN + 40000
 		},
 		Budget: func(tier string) time.Duration {
 			if tier == "thorough" {
